@@ -31,7 +31,7 @@ Ltac branch_plus q1 q2 q3 :=
 
 Lemma tie_qeigen_p00 q0 q1 q2 q3 : qeigen_p00_pc (OO:=ROps) q0 q1 q2 q3 -> eigen_spec q0 q1 q2 q3 (qeigen_p00 (OO:=ROps) q0 q1 q2 q3).
 Proof.
-  unfold eigen_spec. autounfold with gen; ops_R. cbn [skipn]. fold (pnorm q1 q2 q3).
+  unfold eigen_spec. autounfold with gen; ops_R. cbn [skipn]. rewrite ?(hyp_pnorm q1 q2 q3).
   intros [Hp Hq]. pose proof (pnorm_sq q1 q2 q3) as Sp. pose proof (pnorm_ge q1 q2 q3) as Pp.
   assert (PP : 0 < pnorm q1 q2 q3) by lra. assert (Hd : 0 < pnorm q1 q2 q3 + q1) by lra.
   branch_plus q1 q2 q3.
@@ -39,30 +39,30 @@ Qed.
 
 Lemma tie_qeigen_p011 q0 q1 q2 q3 : qeigen_p011_pc (OO:=ROps) q0 q1 q2 q3 -> eigen_spec q0 q1 q2 q3 (qeigen_p011 (OO:=ROps) q0 q1 q2 q3).
 Proof.
-  unfold eigen_spec. autounfold with gen; ops_R. cbn [skipn]. fold (pnorm q1 q2 q3).
+  unfold eigen_spec. autounfold with gen; ops_R. cbn [skipn]. rewrite ?(hyp_pnorm q1 q2 q3).
   intros [Hp [Hq _]]. branch_minus q1 q2 q3.
 Qed.
 
 Lemma tie_qeigen_p0100 q0 q1 q2 q3 : qeigen_p0100_pc (OO:=ROps) q0 q1 q2 q3 -> eigen_spec q0 q1 q2 q3 (qeigen_p0100 (OO:=ROps) q0 q1 q2 q3).
 Proof.
-  unfold eigen_spec. autounfold with gen; ops_R. cbn [skipn]. fold (pnorm q1 q2 q3).
+  unfold eigen_spec. autounfold with gen; ops_R. cbn [skipn]. rewrite ?(hyp_pnorm q1 q2 q3).
   intros [Hp [Hq [_ H2]]]. assert (Hax : ~ (q2 = 0 /\ q3 = 0)) by tauto. destruct (d_stable q1 q2 q3 Hq Hax) as [Ed [Hd PP]].
   rewrite !Ed. pose proof (pnorm_sq q1 q2 q3) as Sp. branch_plus q1 q2 q3.
 Qed.
 Lemma tie_qeigen_p01010 q0 q1 q2 q3 : qeigen_p01010_pc (OO:=ROps) q0 q1 q2 q3 -> eigen_spec q0 q1 q2 q3 (qeigen_p01010 (OO:=ROps) q0 q1 q2 q3).
 Proof.
-  unfold eigen_spec. autounfold with gen; ops_R. cbn [skipn]. fold (pnorm q1 q2 q3).
+  unfold eigen_spec. autounfold with gen; ops_R. cbn [skipn]. rewrite ?(hyp_pnorm q1 q2 q3).
   intros [Hp [Hq [_ [_ H3]]]]. assert (Hax : ~ (q2 = 0 /\ q3 = 0)) by tauto. destruct (d_stable q1 q2 q3 Hq Hax) as [Ed [Hd PP]].
   rewrite !Ed. pose proof (pnorm_sq q1 q2 q3) as Sp. branch_plus q1 q2 q3.
 Qed.
 Lemma tie_qeigen_p01011 q0 q1 q2 q3 : qeigen_p01011_pc (OO:=ROps) q0 q1 q2 q3 -> eigen_spec q0 q1 q2 q3 (qeigen_p01011 (OO:=ROps) q0 q1 q2 q3).
 Proof.
-  unfold eigen_spec. autounfold with gen; ops_R. cbn [skipn]. fold (pnorm q1 q2 q3).
+  unfold eigen_spec. autounfold with gen; ops_R. cbn [skipn]. rewrite ?(hyp_pnorm q1 q2 q3).
   intros [Hp [Hq _]]. branch_minus q1 q2 q3.
 Qed.
 Lemma tie_qeigen_p1 q0 q1 q2 q3 : qeigen_p1_pc (OO:=ROps) q0 q1 q2 q3 -> eigen_spec q0 q1 q2 q3 (qeigen_p1 (OO:=ROps) q0 q1 q2 q3).
 Proof.
-  unfold eigen_spec. autounfold with gen; ops_R. cbn [skipn]. fold (pnorm q1 q2 q3).
+  unfold eigen_spec. autounfold with gen; ops_R. cbn [skipn]. rewrite ?(hyp_pnorm q1 q2 q3).
   intros Hp. pose proof (pnorm_sq q1 q2 q3) as Sp. rewrite Hp in *.
   assert (Z1 : q1 = 0) by nra. assert (Z2 : q2 = 0) by nra. assert (Z3 : q3 = 0) by nra. subst q1 q2 q3.
   list_eq ltac:(first [ reflexivity | ring ]).
@@ -78,7 +78,7 @@ Proof.
 Qed.
 Lemma qeigen_total q0 q1 q2 q3 : Exists (fun c : Prop * list R => fst c) (qeigen_cases (OO:=ROps) q0 q1 q2 q3).
 Proof.
-  autounfold with gen; ops_R. fold (pnorm q1 q2 q3).
+  autounfold with gen; ops_R. rewrite ?(hyp_pnorm q1 q2 q3).
   destruct (Req_dec (pnorm q1 q2 q3) 0) as [Zp|Np]; [ do 5 apply Exists_cons_tl; apply Exists_cons_hd; exact Zp | ].
   destruct (Rlt_dec q1 0) as [L|G]; [ | apply Exists_cons_hd; cbn [fst]; tauto ].
   destruct (Req_dec q0 0) as [Z0|N0]; [ | apply Exists_cons_tl; apply Exists_cons_hd; cbn [fst]; tauto ].
